@@ -10,7 +10,8 @@ func init() {
 		},
 		Assumptions: append([]string{
 			"presented containers: 0..N+1 blocks after the authority (N = 1 quick / 2 thorough honest blocks); at every position the block bytes are any honest block, the announced key any honest key / attacker key / arbitrary 32 bytes, the algorithm Ed25519 or any int32, the signature any honest signature / a signature by any secret any party holds (root, attacker, every prefix's next secret) over exactly the placed fields / arbitrary 64 bytes; proof: any known or arbitrary next secret, any such seal signature, or absent; verifier key: honest root, attacker, arbitrary",
-			"selectors for keys, signatures, secrets are symbolic (decided by the solver); all key/seed/junk material is symbolic 256/512-bit",
+			"selectors for keys, signatures, secrets are symbolic (decided by the solver); all key/seed/junk material is symbolic 256/512-bit; next secrets of length 64, 33 and 0 (arbitrary content) are also presented",
+			"honest histories (VerifC01Honest): chains of 3 (quick) / 5 (thorough) blocks, every prefix verified fresh / reloaded / sealed / under a wrong root, and two sibling attenuations of every prefix (fresh, reloaded, sealed)",
 			"byte-level mutations that do not decode to a schema-valid message are outside (protobuf decoder trusted); forgery resistance of ed25519 itself is trusted",
 		}, stdAssumptions...),
 		Models:      []string{modelSig, modelCodec},
